@@ -558,11 +558,16 @@ func parseComment(l *syntax.Lexer) (bool, syntax.Token, error) {
 		// parse ：after 「注」
 		if l.GetCurrentChar() == Colon {
 			isComment = true
-			switch l.Next() {
+			// only an opening quote is consumed here: the content loop below starts with
+			// the character after the cursor, and the first character of a single-line
+			// comment may already be its line break (an empty 注：)
+			switch l.Peek() {
 			case LeftDoubleQuoteI:
+				l.Next()
 				multiCommentType = commentTypeQuoteI
 				quoteCount = 1
 			case LeftDoubleQuoteII:
+				l.Next()
 				multiCommentType = commentTypeQuoteII
 				quoteCount = 1
 			default:
